@@ -7,6 +7,8 @@ from vp.core import Stream
 from vp import coqfmt as q
 
 TRUSTED = [
+    "hand model Model/EnvFilter.v of WorkflowConfig.filter_env and of environment inheritance (replicate over the "
+    "linearised ancestors) on [environment] / [environment filter] items",
     "hand model Model/Shell.v of _write_runtime_environment/_get_variable_value_definition (compared as text with "
     "what the real JobFileWriter writes) and of the bash fragment that evaluates it (double-quote rules, $NAME/${NAME}, "
     "tilde-prefix); the bash part is validated by sourcing the written section in the real /bin/bash on every run",
@@ -15,8 +17,11 @@ TRUSTED = [
     "structured word and its rendering are tied by the text comparison and the bash run",
 ]
 ASSUMES = [
+    "cfgenv stream: the linearised ancestor list is taken from the real config (C35 covers it); values there are plain "
+    "(no quotes / '#' / backslash), so parsec validation leaves them unchanged",
     "no task parameters (job_conf['param_var'] empty), so no %(param)s interpolation of values",
-    "job_conf['environment'] iterates in configuration order (dict order, as built by the config loader)",
+    "env stream: job_conf['environment'] is given as a dict in configuration order (the cfgenv stream checks that "
+    "WorkflowConfig delivers it in that order)",
     "bash is not in posix mode, history expansion off (non-interactive), no `set -u`; UTF-8 or C locale",
     "values without NUL",
 ]
@@ -335,7 +340,252 @@ class EnvStream(Stream):
                 yield dict(c, conf=conf[:i] + [dict(v, tilde=None)] + conf[i + 1:])
 
 
-STREAMS = [EnvStream()]
+# ---------------------------------------------------------------------------
+# environment assembled by the real WorkflowConfig (inheritance + environment filter)
+# ---------------------------------------------------------------------------
+CFG_LIT = "abXY019 =~!*?[]{}();&|<>%:./-+@^_éß日"
+CFG_NAMES = ["A", "B", "FOO", "BAR_1", "_x", "v0", "PATH_TO", "Z9", "OUT", "cylc_var", "LongerVariableName", "HOME"]
+
+
+def _cfg_lit(rng, lo, hi):
+    return "".join(rng.choice(CFG_LIT) for _ in range(rng.randint(lo, hi)))
+
+
+def _cfg_parts(rng, known):
+    """value parts for a flow.cylc environment item: no quotes, '#', backslash, leading/trailing blanks"""
+    parts = []
+    for _ in range(rng.choice([1, 1, 2, 3])):
+        if known and rng.random() < 0.45:
+            parts.append(["ref", rng.choice(known), rng.random() < 0.6])
+        else:
+            parts.append(["lit", _cfg_lit(rng, 0, 6)])
+    v = _value(parts)
+    if v != v.strip() or v.startswith("~") or "  " in v:
+        parts = [["lit", "v"]] + parts + [["lit", "."]]
+    return parts
+
+
+def _gen_cfg(rng):
+    fams = rng.choice([[], ["F1"], ["F1", "F2"]])
+    inherit = {"root": []}
+    if "F1" in fams:
+        inherit["F1"] = []
+    if "F2" in fams:
+        inherit["F2"] = rng.choice([[], ["F1"]])
+    if fams == ["F1", "F2"]:
+        opts = [["F1"], ["F2"], ["F2", "F1"]] + ([["F1", "F2"]] if not inherit["F2"] else [])
+    elif fams:
+        opts = [["F1"], []]
+    else:
+        opts = [[]]
+    inherit["t"] = rng.choice(opts)
+    pool = rng.sample(CFG_NAMES, rng.randint(3, 7))
+    nss, defined = {}, []
+    for name in ["root"] + fams + ["t"]:
+        n = {"inherit": inherit[name], "env": None, "incl": None, "excl": None}
+        if rng.random() < (0.85 if name in ("root", "t") else 0.6):
+            env = []
+            for var in rng.sample(pool, rng.randint(0, min(4, len(pool)))):
+                env.append({"name": var, "tilde": None, "parts": _cfg_parts(rng, defined + [e["name"] for e in env])})
+            n["env"] = env
+            defined += [e["name"] for e in env if e["name"] not in defined]
+        r = rng.random()
+        if r < (0.55 if name == "t" else 0.25):
+            cand = pool + ["NOT_DEFINED"]
+            n["incl"] = rng.sample(cand, rng.randint(0 if r < 0.05 else 1, min(5, len(cand))))
+        if rng.random() < 0.3:
+            n["excl"] = rng.sample(pool, rng.randint(0, 2))
+        nss[name] = n
+    return {"kind": "valid", "nss": nss, "order": ["root"] + fams + ["t"],
+            "target": rng.choice(["t", "t", "t"] + fams + ["root"]),
+            "home": rng.choice(HOMES), "pre": "outer", "locale": rng.choice(["C", "C.utf8"])}
+
+
+def _flow_text(c):
+    out = ["[scheduling]", "    [[graph]]", "        R1 = t", "[runtime]"]
+    for name in c["order"]:
+        n = c["nss"][name]
+        out.append(f"    [[{name}]]")
+        if name == "t":
+            out.append("        script = true")
+        if n["inherit"]:
+            out.append("        inherit = " + ", ".join(n["inherit"]))
+        if n["incl"] is not None or n["excl"] is not None:
+            out.append("        [[[environment filter]]]")
+            if n["incl"] is not None:
+                out.append("            include = " + ", ".join(n["incl"]))
+            if n["excl"] is not None:
+                out.append("            exclude = " + ", ".join(n["excl"]))
+        if n["env"] is not None:
+            out.append("        [[[environment]]]")
+            for v in n["env"]:
+                out.append(f"            {v['name']} = {value_of(v)}")
+    return "\n".join(out) + "\n"
+
+
+def _ref_env(c, ancestors):
+    """reference: configured environment of the target in definition order, then the filter"""
+    env, incl, excl, have_env = {}, None, None, False
+    by_name = {}
+    for name in reversed(ancestors):              # root first
+        n = c["nss"][name]
+        if n["env"] is not None:
+            have_env = True
+            for v in n["env"]:
+                env[v["name"]] = value_of(v)       # dict: overridden keys keep their place
+                by_name[v["name"]] = v
+        if n["incl"] is not None:
+            incl = n["incl"]
+        if n["excl"] is not None:
+            excl = n["excl"]
+    if not have_env:
+        return []
+    incl, excl = incl or [], excl or []
+    return [by_name[k] for k in env if (not incl or k in incl) and k not in excl]
+
+
+class CfgEnvStream(Stream):
+    name = "cfgenv"
+    coq_import = "From Cylc Require Import Model.TextCodec Model.Shell Model.EnvFilter."
+    check_fn = "EnvFilter.check_case"
+    show_fn = "EnvFilter.model_out"
+    needs_scratch_home = True
+    n_hashseeds = 4
+    shard_size = 30
+    impl_timeout = 1200
+    rule = ("generated flow.cylc files (root, 0-2 families, task t; each namespace with an optional [[[environment]]] of "
+            "0-4 variables whose values refer to variables defined earlier, and an optional [[[environment filter]]] with "
+            "include / exclude lists in random order) parsed by the real WorkflowConfig; the environment of one namespace "
+            "is written with the real JobFileWriter and evaluated in /bin/bash; every case is non-trivial")
+
+    def corpus(self):
+        mk = lambda name, parts: {"name": name, "tilde": None, "parts": parts}
+        ns = lambda inherit=(), env=None, incl=None, excl=None: {"inherit": list(inherit), "env": env,
+                                                                   "incl": incl, "excl": excl}
+        base = {"kind": "valid", "home": "/h", "pre": "outer", "locale": "C.utf8", "target": "t"}
+        return [
+            # the seeded scenario: include list in a different order than the definitions
+            dict(base, order=["root", "t"], nss={
+                "root": ns(env=[mk("C41_BASE", [["lit", "/data/run 1"]]), mk("C41_NAME", [["lit", "file (v2) 3.txt"]]),
+                                mk("C41_SCRATCH", [["lit", "not wanted by t"]]), mk("C41_LABEL", [["lit", "label=grüße"]])]),
+                "t": ns(env=[mk("C41_OUT", [["ref", "C41_BASE", True], ["lit", "/"], ["ref", "C41_NAME", True]])],
+                        incl=["C41_OUT", "C41_LABEL", "C41_NAME", "C41_BASE"])}),
+            dict(base, order=["root", "F1", "F2", "t"], nss={
+                "root": ns(env=[mk("A", [["lit", "1"]]), mk("B", [["lit", "b"], ["ref", "A", False]])]),
+                "F1": ns(env=[mk("C", [["ref", "B", True], ["lit", "-c"]]), mk("A", [["lit", "one"]])], excl=["B"]),
+                "F2": ns(inherit=["F1"], incl=["C", "A", "D"]),
+                "t": ns(inherit=["F2"], env=[mk("D", [["ref", "C", True], ["ref", "A", True]])])}),
+        ]
+
+    def gen(self, rng, tier):
+        n = 90 if tier == "quick" else 1500
+        return [_gen_cfg(rng) for _ in range(n)]
+
+    def impl(self, cases):
+        import io
+        import os
+        import shutil
+        import subprocess
+        import tempfile
+        from types import SimpleNamespace
+        from cylc.flow.config import WorkflowConfig
+        from cylc.flow.job_file import JobFileWriter
+        base = tempfile.mkdtemp(prefix="c41cfg-", dir=os.environ.get("TMPDIR") or "/var/tmp")
+        cwd = os.getcwd()
+        out = []
+        try:
+            for i, c in enumerate(cases):
+                d = os.path.join(base, "w%d" % i)
+                run_dir = os.path.join(d, "cylc-run", "c41")
+                try:
+                    os.makedirs(run_dir)
+                    flow = os.path.join(run_dir, "flow.cylc")
+                    with open(flow, "w", encoding="utf-8") as fh:
+                        fh.write(_flow_text(c))
+                    config = WorkflowConfig("c41", flow, SimpleNamespace(), run_dir=run_dir)
+                    tgt = c["target"]
+                    anc = list(config.runtime["linearized ancestors"][tgt])
+                    envd = config.cfg["runtime"][tgt].get("environment", {})
+                    env = [[str(k), str(v)] for k, v in envd.items()]
+                    handle = io.StringIO()
+                    JobFileWriter._write_runtime_environment(handle, {"environment": envd, "param_var": {}})
+                    text = handle.getvalue()
+                    script = text + "\n" + ("cylc__job__inst__user_env\n" if env else "")
+                    for k, _ in env:
+                        script += "printf '%%s\\0' \"${%s}\"\n" % k
+                    script += "printf 'OK'\n"
+                    path = os.path.join(d, "env.sh")
+                    with open(path, "w", encoding="utf-8") as fh:
+                        fh.write(script)
+                    p = subprocess.run(
+                        ["/usr/bin/env", "-i", "HOME=" + c["home"], "PRE=" + c["pre"], "LC_ALL=" + c["locale"],
+                         "PATH=/usr/bin:/bin", "/bin/bash", "--noprofile", "--norc", path],
+                        stdout=subprocess.PIPE, stderr=subprocess.PIPE, stdin=subprocess.DEVNULL, timeout=20, cwd=d)
+                    fields = p.stdout.split(b"\0")
+                    vals = None
+                    if p.returncode == 0 and fields[-1] == b"OK" and len(fields) == len(env) + 1:
+                        vals = [f.decode("utf-8", "surrogateescape") for f in fields[:-1]]
+                    out.append({"ancestors": anc, "env": env, "text": text, "vals": vals, "rc": p.returncode,
+                                "err": p.stderr.decode("utf-8", "replace")[-300:]})
+                except Exception as e:  # noqa
+                    out.append({"exc": f"{type(e).__name__}: {e}"[:400]})
+                finally:
+                    os.chdir(cwd)
+                    shutil.rmtree(d, ignore_errors=True)
+        finally:
+            shutil.rmtree(base, ignore_errors=True)
+        return out
+
+    def coq_case(self, c, r):
+        if "exc" in r or r["vals"] is None:
+            return None
+        pair = lambda a, b: q.cpair(ctext(a), ctext(b))
+        names = lambda l: q.copt(l, lambda x: q.clist(ctext(k) for k in x))
+        conf_t = "(list (Shell.str * Shell.str))"
+        hier = q.clist(
+            q.capp("EnvFilter.Build_ns",
+                   q.copt(c["nss"][n]["env"], lambda e: q.clist(pair(v["name"], value_of(v)) for v in e)),
+                   names(c["nss"][n]["incl"]), names(c["nss"][n]["excl"]))
+            for n in reversed(r["ancestors"]))
+        env = q.clist(pair(k, v) for k, v in r["env"])
+        shell = q.capp("Shell.Build_case",
+                       q.clist([pair("HOME", c["home"]), pair("PRE", c["pre"])]), "(@nil (Shell.str * Shell.str))",
+                       env, ctext(r["text"]), q.copt(r["vals"], lambda l: q.clist(ctext(x) for x in l)))
+        return q.capp("EnvFilter.Build_case", hier, env, shell)
+
+    def oracle(self, c, r):
+        if "exc" in r:
+            return "unexpected exception: " + r["exc"]
+        ref = _ref_env(c, r["ancestors"])
+        want_names = [v["name"] for v in ref]
+        got_names = [k for k, _ in r["env"]]
+        if got_names != want_names:
+            return (f"environment of {c['target']} reaches the job file writer as {got_names}; configured "
+                    f"(definition order, after include/exclude) is {want_names}")
+        for (k, v), var in zip(r["env"], ref):
+            if v != value_of(var):
+                return f"configured value of {k} changed: {value_of(var)!r} -> {v!r}"
+        if r["vals"] is None:
+            return f"bash failed on the written environment section (rc={r['rc']}): {r['err']}"
+        exp = _expect({"home": c["home"], "pre": c["pre"], "conf": ref}, {})
+        for k, e, got in zip(got_names, exp, r["vals"]):
+            if e is not None and got != e:
+                return f"value of {k}: expected {e!r} (expansion in definition order), job sees {got!r}"
+        return None
+
+    def shrink(self, c):
+        for name in c["order"]:
+            n = c["nss"][name]
+            if n["env"]:
+                for i in range(len(n["env"])):
+                    yield dict(c, nss=dict(c["nss"], **{name: dict(n, env=n["env"][:i] + n["env"][i + 1:])}))
+            for f in ("incl", "excl"):
+                if n[f]:
+                    for i in range(len(n[f])):
+                        yield dict(c, nss=dict(c["nss"], **{name: dict(n, **{f: n[f][:i] + n[f][i + 1:]})}))
+
+
+STREAMS = [EnvStream(), CfgEnvStream()]
 
 META = {
     "level_text": (
@@ -344,8 +594,13 @@ META = {
         "(c41_literal); the tilde shapes (~, ~/x, ~login, ~login/x) evaluate to HOME / the login's home directory "
         "followed by the literal rest, and '~login x' stays literal (c41_tilde_*); assignments are emitted in "
         "configuration order and evaluated sequentially, so a later value ${x} sees the earlier literal value of x "
-        "(c41_order, c41_later_refers_earlier). The writer model is compared as text with the real JobFileWriter "
-        "output and the bash model with the variable values after sourcing that output in the real /bin/bash."),
+        "(c41_order, c41_later_refers_earlier); WorkflowConfig.filter_env returns the order-preserving sub-sequence of "
+        "the configured environment with exactly the included-and-not-excluded variables, values untouched, and "
+        "inheritance keeps the order of variables already present (c41_filter_env_*, c41_inherit_keeps_order). "
+        "The writer model is compared as text with the real JobFileWriter "
+        "output and the bash model with the variable values after sourcing that output in the real /bin/bash; the environment "
+        "assembly model (Model/EnvFilter.v) is compared with the real WorkflowConfig on generated flow.cylc files with "
+        "families and environment filters."),
     "level_note": (
         "bash itself is modelled by hand for the emitted fragment only (double-quote specials, $NAME/${NAME}, "
         "tilde-prefix) and validated differentially; command substitution and other expansions are outside the model "
